@@ -15,7 +15,7 @@ PTS = "PTS"  # placeholder: post_training_scale taken from a first call at run t
 DOMAIN = {
     "quantized_bits": {
         "bits": [4, 2], "integer": [2, 1], "symmetric": [1], "keep_negative": [False],
-        "alpha": [2.0, "auto", "auto_po2"], "use_stochastic_rounding": [True],
+        "alpha": [2.0, 2.0 ** -10, "auto", "auto_po2"], "use_stochastic_rounding": [True],
         "scale_axis": [0], "qnoise_factor": [0.5, 0.0], "var_name": ["vq"], "use_ste": [False],
         "use_variables": [True], "elements_per_scale": [2], "min_po2_exponent": [-2, 0],
         "max_po2_exponent": [1, 0], "post_training_scale": [PTS],
@@ -26,7 +26,7 @@ DOMAIN = {
         "scale_axis": [0], "qnoise_factor": [0.5], "var_name": ["vq"], "use_variables": [True],
     },
     "bernoulli": {"alpha": [2.0, "auto", "auto_po2"], "temperature": [2.0], "use_real_sigmoid": [False]},
-    "ternary": {"alpha": [2.0, "auto", "auto_po2"], "threshold": [0.7, 0.0], "use_stochastic_rounding": [True],
+    "ternary": {"alpha": [2.0, "auto", "auto_po2"], "threshold": [0.7, 0.0, 0.123456789], "use_stochastic_rounding": [True],
                 "number_of_unrolls": [2]},
     "stochastic_ternary": {"alpha": [2.0, "auto", "auto_po2"], "threshold": [0.7, 0.0], "temperature": [4.0],
                            "use_real_sigmoid": [False], "number_of_unrolls": [2]},
@@ -34,9 +34,10 @@ DOMAIN = {
                "scale_axis": [0, [0, 1]], "elements_per_scale": [2], "min_po2_exponent": [-1], "max_po2_exponent": [0]},
     "stochastic_binary": {"alpha": [2.0, "auto", "auto_po2"], "temperature": [2.0], "use_real_sigmoid": [False]},
     "quantized_relu": {
-        "bits": [4, 3], "integer": [1, 2], "use_sigmoid": [1], "negative_slope": [0.25],
-        "use_stochastic_rounding": [True], "relu_upper_bound": [1.5], "is_quantized_clip": [False],
-        "qnoise_factor": [0.5], "var_name": ["vq"], "use_ste": [False], "use_variables": [True],
+        # 16 bits with a slope of 2^-9 / 2^-12: small floats whose printed form needs every digit
+        "bits": [4, 3, 16], "integer": [1, 2], "use_sigmoid": [1], "negative_slope": [0.25, 2.0 ** -9, 2.0 ** -12],
+        "use_stochastic_rounding": [True], "relu_upper_bound": [1.5, 1.7000000476837158], "is_quantized_clip": [False],
+        "qnoise_factor": [0.5, 0.123456789], "var_name": ["vq"], "use_ste": [False], "use_variables": [True],
     },
     "quantized_ulaw": {"bits": [4], "integer": [1], "symmetric": [1], "u": [100.0]},
     "quantized_tanh": {"bits": [4], "use_stochastic_rounding": [True], "symmetric": [True], "use_real_tanh": [True]},
